@@ -43,7 +43,9 @@ PROBES_REQUIRED = ["file-name-with-wildcard-characters", "limit-with-header", "c
                    "file:rejected-unique", "file:sibling", "file:missing", "file:directory", "file:io-error", "until:absent", "until:-1",
                    "until:0", "until:k", "args-malformed", "rejected-and-unreadable-in-one-list", "exit:0", "exit:1",
                    "exit:3", "three-files"]
-BAD_ARGS = [[], ["--bogus"], ["--until", "x", "cid.csv"], ["--until", "-2", "cid.csv"], ["--until"], ["--log", "loud", "cid.csv"]]
+BAD_ARGS = [[], ["--bogus"], ["--until", "x", "cid.csv"], ["--until", "-2", "cid.csv"], ["--until"], ["--log", "loud", "cid.csv"],
+            # a file name that is the empty string: unusable (2) or, read as "a file that cannot be read", 3 - never 4
+            ["cid.csv", ""], [""], ["", "data.csv"], ["cid.csv", "data.csv", ""]]
 
 
 def _spec(fmt, header=0, end_check=False):
@@ -140,8 +142,10 @@ def execute(scenario):
         result.digest = history.digest()
         result.ticks = history.ticks
         result.trace = {"argv": scenario["bad_args"], "outcome": outcome}
-        if outcome != ("system-exit", 2):
-            raise core.Violation("unusable-arguments-not-exit-2", ["args=" + " ".join(scenario["bad_args"][:1] or ["none"])],
+        empty_path = "" in scenario["bad_args"]
+        if outcome != ("system-exit", 2) and not (empty_path and outcome == ("exit", 3)):
+            raise core.Violation("unusable-arguments-not-exit-2", ["args=" + ("<empty file name>" if empty_path else " ".join(
+                scenario["bad_args"][:1] or ["none"]))],
                                  "main(%r) -> %r" % (scenario["bad_args"], outcome))
         return result
 
